@@ -15,7 +15,9 @@
       step 3  ⟨kg.write(); insert_in_memory: dedup against the growing Vec, shadow-write the *new*
                tuples to the incremental engine at `time`, publish_snapshot if new_count > 0⟩   mod.rs:504-510, 2262-2334
     delete_tuples_from: the same three steps with delete_in_memory (publish iff something was removed)   mod.rs:572-613, 2343-2406
-    execute_query_tuples_on: ⟨load the ArcSwap snapshot⟩ then evaluate on the immutable snapshot — one step   mod.rs:667-683
+    execute_query_tuples_on / execute_query_with_rules_tuples_on: ⟨load the ArcSwap snapshot⟩ then evaluate
+      on the immutable snapshot (facts and rule list) — one step                 mod.rs:667-683, 1438
+    register_rule_in / drop_rule_in: ⟨kg.write(); rule catalog update; publish_snapshot⟩ — one step   mod.rs:911-953, 2481
     read_relation_consistent (under kg.read()): m := max_write_time; advance every input session
       to m+1; wait; read the arrangement — one step                          incremental.rs:461-467
 
@@ -39,6 +41,9 @@ inductive Op where
   | delete (r : Rel) (ts : List Tup)
   | query (r : Rel)          -- snapshot query  q(X) <- r(X)
   | readc (r : Rel)          -- IncrementalEngine::read_relation_consistent(r)
+  | regRule (v : Nat) (r : Rel)   -- register the persistent view clause  v<v>(X) <- r<r>(X)
+  | dropRule (v : Nat)            -- drop the rule v<v>
+  | queryV (v : Nat)              -- query through the snapshot's rules:  q(X) <- v<v>(X)
   deriving Repr, DecidableEq, Inhabited
 
 /-- what a call returned -/
@@ -46,6 +51,9 @@ inductive Out where
   | ins (new dup : Nat)
   | del (n : Nat)
   | rows (l : List Tup)      -- in storage order; printed sorted
+  | created                  -- RuleRegisterResult::Created
+  | added (n : Nat)          -- RuleRegisterResult::RuleAdded(n)
+  | dropped
   | err
   deriving Repr, DecidableEq, Inhabited
 
@@ -68,8 +76,13 @@ structure Inc where
   maxW : Nat := 0                               -- max_write_time
   dead : Bool := false                          -- worker thread gone
 
+/-- rule catalog restricted to view clauses: per view the body relations of its clauses -/
+abbrev Rules := List (Nat × List Rel)
+
 structure State where
   clock : Nat := 1                              -- StorageEngine::logical_time (mod.rs:143)
+  rules : Rules := []                           -- rule_catalog (live)
+  snapRules : Rules := []                       -- rules carried by the published snapshot
   live : Rel → List Tup := fun _ => []          -- engine.input_tuples
   snap : Rel → List Tup := fun _ => []          -- published snapshot
   log : List (Rel × Tup × Nat × Int) := []      -- persisted updates, in append order
@@ -101,6 +114,31 @@ def applyW (live : Rel → List Tup) : Op → (Rel → List Tup)
   | _ => live
 
 def replay (ops : List (Tid × Op)) : Rel → List Tup := ops.foldl (fun l o => applyW l o.2) (fun _ => [])
+
+def lookupR (v : Nat) : Rules → Option (List Rel)
+  | [] => none
+  | (a, b) :: rest => if a = v then some b else lookupR v rest
+
+/-- `RuleDefinition::add_rule` (rule_catalog.rs:338): an identical clause is not added twice -/
+def addClause (cls : List Rel) (r : Rel) : List Rel := if cls.contains r then cls else cls ++ [r]
+
+/-- `RuleCatalog::register_rule` (rule_catalog.rs:437: a new definition, or one more clause of an
+    existing one) and `RuleCatalog::drop` (rule_catalog.rs:518), for view clauses -/
+def applyR (rules : Rules) : Op → Rules
+  | .regRule v r => match lookupR v rules with
+    | none => rules ++ [(v, [r])]
+    | some _ => rules.map (fun e => if e.1 = v then (e.1, addClause e.2 r) else e)
+  | .dropRule v => rules.filter (fun e => e.1 != v)
+  | _ => rules
+
+def replayR (ops : List (Tid × Op)) : Rules := ops.foldl (fun l o => applyR l o.2) []
+
+/-- answer of `q(X) <- v<v>(X)` evaluated on a snapshot: union of the clauses' body relations; a view
+    the snapshot's rule list does not contain is an unknown relation (empty answer) -/
+def evalView (facts : Rel → List Tup) (rules : Rules) (v : Nat) : List Tup :=
+  match lookupR v rules with
+  | none => []
+  | some cls => (cls.flatMap facts).eraseDups
 
 def Thread.finish (th : Thread) (out : Out) (ghost : Nat) : Thread :=
   match th.todo with
@@ -150,6 +188,7 @@ def applyStep (st : State) (t : Tid) (th : Thread) (op : Op) (τ : Nat) : State 
     else
       { st with live := live', applied := applied', inc := inc',
                 snap := if nw.isEmpty then st.snap else live',
+                snapRules := if nw.isEmpty then st.snapRules else st.rules,
                 threads := setThread st.threads t (th.finish (.ins nw.length (ts.length - nw.length)) applied'.length) }
   | .delete r ts =>
     let (cur', gone) := deleteMem (st.live r) ts
@@ -164,6 +203,7 @@ def applyStep (st : State) (t : Tid) (th : Thread) (op : Op) (τ : Nat) : State 
     else
       { st with live := live', applied := applied', inc := inc',
                 snap := if removed == 0 then st.snap else live',
+                snapRules := if removed == 0 then st.snapRules else st.rules,
                 threads := setThread st.threads t (th.finish (.del removed) applied'.length) }
   | _ => st
 
@@ -172,6 +212,33 @@ def opRows : Op → Rel × List Tup × Int
   | .delete r ts => (r, ts, -1)
   | .query r => (r, [], 0)
   | .readc r => (r, [], 0)
+  | .regRule _ r => (r, [], 0)
+  | .dropRule _ => (0, [], 0)
+  | .queryV _ => (0, [], 0)
+
+/-- `register_rule_in` / `drop_rule_in` (mod.rs:911 / 940): one step — ⟨kg.write(); catalog update and
+    save; publish_snapshot (facts *and* rules)⟩. A failing drop returns before publishing. (With the
+    incremental engine on, registration also materialises the view — not modelled; rule operations are
+    generated with the engine off.) -/
+def regOut (rules : Rules) (v : Nat) (r : Rel) : Out :=
+  match lookupR v rules with | none => Out.created | some cls => Out.added (addClause cls r).length
+
+def ruleStep (st : State) (t : Tid) (th : Thread) (op : Op) : State :=
+  let applied' := st.applied ++ [(t, op)]
+  match op with
+  | .regRule v r =>
+    let rules' := applyR st.rules op
+    let out := regOut st.rules v r
+    { st with rules := rules', applied := applied', snap := st.live, snapRules := rules',
+              threads := setThread st.threads t (th.finish out applied'.length) }
+  | .dropRule v =>
+    match lookupR v st.rules with
+    | none => { st with applied := applied', threads := setThread st.threads t (th.finish .err applied'.length) }
+    | some _ =>
+      let rules' := applyR st.rules op
+      { st with rules := rules', applied := applied', snap := st.live, snapRules := rules',
+                threads := setThread st.threads t (th.finish .dropped applied'.length) }
+  | _ => st
 
 def step (st : State) (t : Tid) : Res :=
   if t ≥ st.n then .skip else
@@ -181,6 +248,9 @@ def step (st : State) (t : Tid) : Res :=
     | op :: _ =>
       match op, th.pc with
       | .query r, _ => .ok { st with threads := setThread st.threads t (th.finish (.rows (st.snap r)) st.applied.length) }
+      | .queryV v, _ => .ok { st with threads := setThread st.threads t (th.finish (.rows (evalView st.snap st.snapRules v)) st.applied.length) }
+      | .regRule v r, _ => .ok (ruleStep st t th (.regRule v r))
+      | .dropRule v, _ => .ok (ruleStep st t th (.dropRule v))
       | .readc r, _ =>
         match st.inc with
         | none => .ok { st with threads := setThread st.threads t (th.finish .err st.applied.length) }
